@@ -296,7 +296,27 @@ def r07_7(ctx):
     ctx.floor("R07.7", "void-test-paths", n, 1)
 
 
+def r07_9(ctx):
+    """serialize(writer, node, opts): the serializer is built from the caller's options as they are, and the traversal scope handed to
+    the node is that of the same options (the context element name of ChildrenOnly(Some(name)) reaches HtmlSerializer::new, where it
+    decides whether the first text child is raw text)"""
+    key, pcs = nfq.cells(ctx, AREA, "serialize::serialize")
+    fe = nfq.feasible(pcs)
+    ok = len(fe) == 1 and not fe[0]["guards"]
+    detail = "serialize() is one unconditional call"
+    if ok:
+        t = nfq.texts(fe[0])
+        m = re.fullmatch(r"p2\.serialize\(new\(p1,(.*?)\),(.*)\)", t[-1]) if t else None
+        ok = m is not None and len(t) == 1 and m.group(1) == "p3" and m.group(2) == "p3.traversal_scope"
+        detail = "node.serialize(HtmlSerializer::new(writer, opts), opts.traversal_scope)" if ok else \
+            "the serializer is built from %s and the scope passed is %s (actions %s): the options the serializer sees are not the caller's (e.g. the context element of ChildrenOnly(Some(name)) is lost)" % (
+                m.group(1) if m else "?", m.group(2) if m else "?", t[:3])
+    ctx.ob("R07.9", "serialize-passes-the-callers-options", ok, detail, "html5ever serialize::serialize")
+
+
 def run(ctx):
+    ctx.rule("R07.9", "serialize() builds the serializer from the caller's options unchanged and passes their traversal scope")
+    ctx.guard("R07.9", "entry", lambda: r07_9(ctx))
     ctx.rule("R07.8", "the parser maps the serializer's replacements back: a named reference ending in ';' is decoded in text and in attribute values whatever follows it (shared with R14.6)")
     from .C14 import semicolon_rule
     ctx.guard("R07.8", "semicolon", lambda: semicolon_rule(ctx, "R07.8"))
